@@ -904,9 +904,10 @@ class QueryObjectDescriptor(SymbolicExpression[T], ABC):
         for bindings, is_false in self._evaluate_selected_variables_from_(
             0, sources, False
         ):
-            var_val = {var._id_: bindings[var._id_] for var in self.selected_variables}
             self._is_false_ = self._is_false_ or is_false
-            yield OperationResult({**sources, **var_val}, self._is_false_, self)
+            # with what the selected expressions bound on the way (the variable a selected attribute is taken from):
+            # an enclosing query must not enumerate it again
+            yield OperationResult({**sources, **bindings}, self._is_false_, self)
 
     def _evaluate_selected_variables_from_(
         self, index: int, bindings: Dict[int, HashedValue], is_false: bool
